@@ -387,7 +387,7 @@ func isAtom(e Expr) bool {
 	case *FieldAcc:
 		return isAtom(x.E)
 	case *Ctor:
-		return x.Arg == nil
+		return x.Arg == nil && !x.Union.Generic
 	case *Call:
 		return false
 	}
@@ -458,7 +458,7 @@ func (pr *printer) inl(e Expr) (string, int) {
 		}
 		for k, i := range order {
 			nm := x.Rec.Fields[i].Name
-			if k == 0 && x.Prefix {
+			if k == 0 && x.Prefix && !x.Rec.Generic {
 				nm = x.Rec.Name + "." + nm
 			}
 			fs = append(fs, nm+"="+pr.inline(x.Fields[i], 0))
@@ -509,6 +509,10 @@ func (pr *printer) inl(e Expr) (string, int) {
 		return strings.Join(parts, " "), 1
 	case *Ctor:
 		c := x.Union.Cases[x.Case]
+		if x.Arg == nil && x.Union.Generic {
+			// a payload-less case of a generic union is a function taking explicit type arguments
+			return c.Name + "<" + x.Union.TArg.String() + "> ()", 1
+		}
 		if x.Arg == nil {
 			return c.Name, 0
 		}
